@@ -276,7 +276,15 @@ def _value_case(case, res):
   sig = _marker_sig(marker)
   base = snap(v)
   routes = []
-  routes.append(('json', lambda: pg.from_json(pg.to_json(v), allow_partial=True)))
+  def json_twice():
+    # the JSON object form is a value of the caller: reading it leaves it as it is (and reading it again gives the same)
+    j = pg.to_json(v)
+    keep = copy.deepcopy(j)
+    w1 = pg.from_json(j, allow_partial=True)
+    if j != keep:
+      raise _JsonConsumed(keep, j)
+    return w1
+  routes.append(('json', json_twice))
   routes.append(('json_str', lambda: pg.from_json_str(pg.to_json_str(v), allow_partial=True)))
   if isinstance(v, pg.Symbolic):
     routes.append(('json_hide_default', lambda: pg.from_json(pg.to_json(v, hide_default_values=True), allow_partial=True)))
@@ -290,6 +298,9 @@ def _value_case(case, res):
       w = fn()
     except RecursionError:
       raise
+    except _JsonConsumed as e:
+      return res.violate('from_json modified the JSON value it was given: %s -> %s' % (
+          core.safe_repr(e.args[0]), core.safe_repr(e.args[1])), law='from-json-modifies-input', route=name, **sig)
     except Exception as e:   # pylint: disable=broad-except
       return res.violate('%s round trip of %s raised %r' % (name, core.safe_repr(v), e), law='roundtrip-raises', route=name,
                          exc=type(e).__name__, **sig)
@@ -365,6 +376,10 @@ def _loose_snap(v):
   if callable(v) or isinstance(v, type):
     return ('callable', getattr(v, '__qualname__', repr(v)))
   return (type(v).__name__, repr(v))
+
+
+class _JsonConsumed(Exception):
+  pass
 
 
 def _functor_nodes(v):
